@@ -106,7 +106,10 @@ impl<T> From<DiplomatOption<T>> for Option<T> {
 }
 
 impl<T, E> From<DiplomatResult<T, E>> for Result<T, E> {
-    fn from(mut result: DiplomatResult<T, E>) -> Result<T, E> {
+    fn from(result: DiplomatResult<T, E>) -> Result<T, E> {
+        // The payload is moved out below, so `result`'s own destructor must not run
+        // (it would drop the payload a second time).
+        let mut result = ManuallyDrop::new(result);
         unsafe {
             if result.is_ok {
                 Ok(ManuallyDrop::take(&mut result.value.ok))
